@@ -2,6 +2,7 @@ package main
 
 import (
 	"go/ast"
+	"sort"
 	"strings"
 
 	"promverif/eng"
@@ -116,4 +117,83 @@ func runC48(c *eng.Ctx) {
 		return true
 	})
 	c.Check("R4", lw.Where(), "arms remapping duplicate refs (samples, histograms, float histograms: ≥3)", nRemap >= 3, p.Pos(lw.Body.Pos()), "")
+	runC48Visibility(c)
+}
+
+// runC48Visibility decides three structural necessary conditions of "every accepted sample follows a series
+// record of its ref and survives checkpoints" that involve more than one appender or the checkpoint writer.
+func runC48Visibility(c *eng.Ctx) {
+	p := c.P
+	A := "tsdb/agent:"
+	// ---- R5: a series other appenders can find has its record in the WAL ----
+	// A lookup in getOrCreate (GetByID, GetByHash, lost SetUnlessAlreadySet race) returns the series without
+	// queueing a series record, so the record must be in the WAL by the time the series can be found.
+	gc := c.Fn(A + "appenderBase.getOrCreate")
+	pubs := gc.Find(p.MethodOn(A+"DB.series", "SetUnlessAlreadySet"))
+	logs := gc.Find(p.MethodOn(A+"DB.wal", "Log"))
+	c.Check("R5", gc.Where(), "publishes new series through stripeSeries.SetUnlessAlreadySet (≥1 site)", len(pubs) >= 1, p.Pos(gc.Body.Pos()), "")
+	for _, pub := range pubs {
+		ok := false
+		for _, l := range logs {
+			if gc.Graph.Dom(l, pub) {
+				ok = true
+			}
+		}
+		c.Check("R5", gc.Where(), "the record of a new series is logged before the series is published to other appenders (their lookups queue no series record)", ok, gc.At(pub),
+			"the series is inserted into db.series here while its record waits in this appender's pendingSeries until Commit/Rollback; another appender that finds it commits samples for the ref first")
+	}
+	// ---- R6: garbage collection knows about uncommitted appends ----
+	ms := p.Named(A + "memSeries")
+	held := eng.Or(p.Store(A+"appenderBase.sampleSeries"), p.Store(A+"appenderBase.histogramSeries"), p.Store(A+"appenderBase.floatHistogramSeries"))
+	holders := map[string]bool{}
+	for _, o := range p.FindAll(held) {
+		if !strings.HasSuffix(o.In, "clearData") {
+			holders[o.In] = true
+		}
+	}
+	c.Check("R6", "tsdb/agent", "functions that keep a *memSeries for a pending sample until Commit (≥3)", len(holders) >= 3, "", "")
+	gcf := c.Fn(A + "stripeSeries.GC")
+	chk := gcf.InnerClosure("check", eng.CallNamed("delete"))
+	stores := map[string]map[string]bool{} // memSeries field read by the staleness test -> functions storing it
+	for _, f := range eng.StructFields(ms) {
+		if len(chk.Find(p.FieldUse(A+"memSeries."+f))) == 0 {
+			continue
+		}
+		stores[f] = map[string]bool{}
+		for _, o := range p.FindAll(p.Store(A + "memSeries." + f)) {
+			stores[f][o.In] = true
+		}
+	}
+	var unmarked []string
+	for h := range holders {
+		ok := false
+		for _, in := range stores {
+			ok = ok || in[h]
+		}
+		if !ok {
+			unmarked = append(unmarked, h)
+		}
+	}
+	sort.Strings(unmarked)
+	c.Check("R6", gcf.Where(), "the staleness test reads a memSeries field that every append sets while its sample is uncommitted", len(unmarked) == 0, p.Pos(chk.Body.Pos()),
+		"these appends keep the *memSeries in the appender and write no memSeries field before Commit (lastTs is updated after logging): "+strings.Join(unmarked, ", ")+"; GC drops a series with a pending sample, the sample is then logged for a ref whose series record later checkpoints discard")
+	// ---- R7: every checkpoint writer is told the truncation time ----
+	tr := c.Fn(A + "DB.truncate")
+	for _, l := range tr.Find(eng.Or(p.Call(A+"Checkpoint"), p.Call("tsdb/wlog:Checkpoint"))) {
+		call := l.Node.(*ast.CallExpr)
+		callee := eng.FuncName(tr.Callee(call))
+		has := false
+		for _, a := range call.Args {
+			ast.Inspect(a, func(n ast.Node) bool {
+				if id, ok := n.(*ast.Ident); ok && id.Name == "mint" {
+					if tr.Info.Uses[id] != nil {
+						has = true
+					}
+				}
+				return true
+			})
+		}
+		c.Check("R7", tr.Where(), "checkpoint writer "+callee+" is given the truncation time mint (needed to retain the samples at or after it)", has, tr.At(l),
+			"this writer sees neither mint nor the old segments: it writes one synthetic sample (last timestamp, value 0) per live series instead of the accepted samples ≥ mint")
+	}
 }
